@@ -157,8 +157,8 @@ func ctxSnapshot(c *rux.Context, rec *Rec) string {
 		sort.Strings(list)
 		allowed = strings.Join(list, ",")
 	}
-	return fmt.Sprintf("query=%v page=%q allowed=%s data=%v params={%s} params_nil=%v errors=%d first_error=%v aborted=%v status=%d length=%d resp_type=%T raw_writer_is_own=%v req_is_own=%v handler_nil=%v",
-		qk, c.Query("page"), allowed, keys, fmtParams(copyParams(c.Params)), c.Params == nil, len(c.Errors), c.FirstError(), c.IsAborted(), c.StatusCode(), c.Length(),
+	return fmt.Sprintf("query=%v page=%q allowed=%s data=%v params={%s} params_nil=%v errors=%d errors_nil=%v errors_spare_capacity=%d first_error=%v aborted=%v status=%d length=%d resp_type=%T raw_writer_is_own=%v req_is_own=%v handler_nil=%v",
+		qk, c.Query("page"), allowed, keys, fmtParams(copyParams(c.Params)), c.Params == nil, len(c.Errors), c.Errors == nil, cap(c.Errors)-len(c.Errors), c.FirstError(), c.IsAborted(), c.StatusCode(), c.Length(),
 		c.Resp, c.RawWriter() == any(rec), ownReq, c.Handler() == nil)
 }
 
